@@ -253,6 +253,38 @@ def narrowing_rule(rep, funcs):
             rep.ok("%s: every floating-to-integer conversion is dominated by a two-sided range test" % f.qname)
 
 
+def number_text_rule(rep, funcs):
+    """(f) the text of a numeric constant node is what getCxxFormula prints: when a Number / TNumber / TLiteral is built from a
+    computed floating value its text must not come from std::to_string(<floating>) (six fixed decimals: 1.38e-23 prints as 0.000000,
+    0.123456789 as 0.123457): the printed formula would not have the value of the node."""
+    n_ = 0
+    for f in funcs:
+        for s, n in sorted(f.stmts.items()):
+            c = n.get("callee") or ""
+            d = n.get("calleeDisplay") or ""
+            if not ((n["k"] == "CallExpr" and c.endswith("make_shared") and re.search(r"make_shared<[\w:]*(Number|TNumber)\b", d)) or
+                    (n["k"] in ("CXXConstructExpr", "CXXTemporaryObjectExpr") and re.search(r"::(Number|TNumber)::(Number|TNumber)$", c))):
+                continue
+            args = n.get("args", [])
+            if len(args) < 2:
+                continue
+            n_ += 1
+            bad = None
+            for x in f.walk(args[0]):
+                m = f.stmts[x]
+                if m["k"] == "CallExpr" and (m.get("callee") or "") == "std::to_string" and m.get("args"):
+                    ty = (f.stmts.get(f.strip(m["args"][0]), {}).get("t") or "")
+                    if re.search(r"\b(double|float|long double)\b", ty) or ty in ("real",):
+                        bad = (x, ty)
+            if bad is not None:
+                rep.fail("NUMBER-TEXT@%s#%s" % (f.qname, rel(f.short_loc(s)).rsplit(":", 1)[-1]),
+                         "%s: %s builds the text of a numeric node with std::to_string(%s) on a %s: getCxxFormula then prints six fixed decimals, "
+                         "not the value of the node" % (rel(f.short_loc(s)), f.qname, f.text(f.stmts[bad[0]]["args"][0]), bad[1]))
+            else:
+                rep.ok("%s: numeric node built at %s keeps a faithful text" % (f.qname, rel(f.short_loc(s))), sample=False)
+    rep.count("numeric nodes built from a text and a value", n_)
+
+
 def run(tier):
     rep = Report("C13", tier, "other", RULE)
     units = units_under("src/Math")
@@ -273,6 +305,8 @@ def run(tier):
     precedence_rule(rep, fq)
     narrowing_rule(rep, [f for f in funcs if f.qname.startswith("tfel::math::Evaluator::")])
     rep.floor("floating-to-integer conversions", 1)
+    number_text_rule(rep, funcs)
+    rep.floor("numeric nodes built from a text and a value", 5)
     # positive control for OWNERSHIP
     ctl = os.path.join(VERIF, "controls", "C13_control.cxx")
     dc = cfgdump([ctl], os.path.join(OUT, "C13", "ctl"), funcs=r"^verif_ctl::", flags_for=lambda u: (header_flags(), VERIF))
